@@ -77,6 +77,12 @@ chk("C12", "venum",
     "Trusted: go-jose verification. Quick tier runs the full token product for the principal authorizations and a stride-37 subset for variants (second user, no nonce, audience); thorough runs the full product.",
     "DESIGN.md 3 C12")
 
+chk("C02", "venum",
+    "exhaustive enumeration of deployments x account names x typed form x key types x certificate types (with group mode, extension templates and URL target variants cycled pairwise) on the real login and certificate handlers; every returned certificate decoded independently",
+    "For 24 deployments (Kerberos realm none/short/long x Ed25519 CA x RSA/ECDSA primary CA x username normalisation), 17 account names (case variants, dots, dashes, plus, underscore, digits-only, 1 to 200 characters, case twins), the name typed as stored and upper-cased, 7 subject keys (RSA 2048/3072/4096, P-256/384/521, Ed25519) and 3 certificate types, the user logs in through the real login endpoint and requests a certificate; the SSH certificate must be a user certificate whose only principal is the normalised user, certify the submitted key, carry exactly the five standard extensions plus the configured templates with the user name substituted, and verify under a key served by /public/sshca; the X.509 certificate must have CN = user, the submitted key, non-CA, clientAuth EKU, verify under /public/x509ca and carry exactly the directory's groups; requests naming another user (other, case variant, prefix, suffix, trailing slash, empty) are refused.",
+    "Trusted: x/crypto/ssh and crypto/x509 decoders. The Kerberos SAN is decoded and a malformed SAN (long realm/user names) is recorded as an observation, not a violation: the statement does not name it. Quick tier rotates extension sets across deployments; thorough runs all.",
+    "DESIGN.md 3 C02")
+
 NOT_YET = {
 }
 
